@@ -192,6 +192,7 @@ static std::string run(std::vector<std::string> const &w)
 	if(w.size()>=4 && w[0]=="mp") return run_mp(w);
 	if(w.size()==2 && w[0]=="ct") return run_ct(w);
 	if(w.size()>=10 && w[0]=="rq") return c12_run_request(w,tmpdir_ok,tmpdir_bad);
+	if(w.size()==3 && w[0]=="lim") return c12_run_limits(w);
 	if(w.size()==2 && w[0]=="form") return c12_run_form(w);
 	return "bad-op";
 }
